@@ -53,6 +53,7 @@ type Solver struct {
 	dead    bool
 	keepForModel bool
 	lines   chan string
+	IntMode bool // print bit-vectors as exact signed integers (sym/intmode.go)
 }
 
 func Argv(name string) []string {
@@ -152,16 +153,33 @@ func (s *Solver) emit(line string) {
 	s.send(line)
 }
 
+func (s *Solver) declareVar(t *sym.Term) {
+	if s.decl[t.Name] {
+		return
+	}
+	s.decl[t.Name] = true
+	if s.IntMode && t.Sort.K == sym.KBV {
+		s.emit(fmt.Sprintf("(declare-const %s Int)", t.Name))
+		s.emit("(assert " + sym.RangeInt(t.Name, t.Sort.W) + ")")
+		return
+	}
+	s.emit(fmt.Sprintf("(declare-const %s %s)", t.Name, t.Sort.SMT()))
+}
+
+func (s *Solver) ref(t *sym.Term) string {
+	if s.IntMode {
+		return sym.RefInt(t)
+	}
+	return sym.Ref(t)
+}
+
 // define makes sure t and its sub-terms have definitions in the current scope.
 func (s *Solver) define(f *sym.Factory, t *sym.Term) {
 	switch t.Op {
 	case sym.OConst:
 		return
 	case sym.OVar:
-		if !s.decl[t.Name] {
-			s.decl[t.Name] = true
-			s.emit(fmt.Sprintf("(declare-const %s %s)", t.Name, t.Sort.SMT()))
-		}
+		s.declareVar(t)
 		return
 	}
 	if s.defined[t.ID] {
@@ -182,10 +200,7 @@ func (s *Solver) define(f *sym.Factory, t *sym.Term) {
 				continue
 			}
 			if a.Op == sym.OVar {
-				if !s.decl[a.Name] {
-					s.decl[a.Name] = true
-					s.emit(fmt.Sprintf("(declare-const %s %s)", a.Name, a.Sort.SMT()))
-				}
+				s.declareVar(a)
 				continue
 			}
 			if !s.defined[a.ID] {
@@ -206,19 +221,31 @@ func (s *Solver) define(f *sym.Factory, t *sym.Term) {
 				sig := f.UFs[x.Name]
 				var as []string
 				for _, a := range sig.Args {
-					as = append(as, a.SMT())
+					if s.IntMode {
+						as = append(as, a.SMTInt())
+					} else {
+						as = append(as, a.SMT())
+					}
 				}
-				s.emit(fmt.Sprintf("(declare-fun %s (%s) %s)", x.Name, strings.Join(as, " "), sig.Ret.SMT()))
+				if s.IntMode {
+					s.emit(fmt.Sprintf("(declare-fun %s (%s) %s)", x.Name, strings.Join(as, " "), sig.Ret.SMTInt()))
+				} else {
+					s.emit(fmt.Sprintf("(declare-fun %s (%s) %s)", x.Name, strings.Join(as, " "), sig.Ret.SMT()))
+				}
 			}
 		}
-		s.emit(fmt.Sprintf("(define-fun t%d () %s %s)", x.ID, x.Sort.SMT(), sym.Body(x)))
+		if s.IntMode {
+			s.emit(fmt.Sprintf("(define-fun t%d () %s %s)", x.ID, x.Sort.SMTInt(), sym.BodyInt(x)))
+		} else {
+			s.emit(fmt.Sprintf("(define-fun t%d () %s %s)", x.ID, x.Sort.SMT(), sym.Body(x)))
+		}
 	}
 }
 
 // Assert adds t to the path condition.
 func (s *Solver) Assert(f *sym.Factory, t *sym.Term) {
 	s.define(f, t)
-	s.emit("(assert " + sym.Ref(t) + ")")
+	s.emit("(assert " + s.ref(t) + ")")
 }
 
 func (s *Solver) setTimeout(ms int) {
@@ -278,7 +305,7 @@ func (s *Solver) Check(f *sym.Factory, extra *sym.Term, timeoutMs int) Result {
 	if extra != nil {
 		s.define(f, extra)
 		s.send("(push 1)")
-		s.send("(assert " + sym.Ref(extra) + ")")
+		s.send("(assert " + s.ref(extra) + ")")
 	}
 	s.send("(check-sat)")
 	res := Unknown
@@ -415,6 +442,16 @@ func parseModel(txt string, m map[string]uint64) {
 				m[name] = 1
 				i += 3
 				continue
+			case len(v) > 0 && v[0] >= '0' && v[0] <= '9':
+				u, _ := strconv.ParseUint(v, 10, 64)
+				m[name] = u
+				i += 3
+				continue
+			case v == "(" && i+4 < len(tok) && tok[i+3] == "-":
+				u, _ := strconv.ParseUint(tok[i+4], 10, 64)
+				m[name] = -u
+				i += 5
+				continue
 			case v == "false":
 				m[name] = 0
 				i += 3
@@ -442,7 +479,7 @@ func (s *Solver) Script(f *sym.Factory, extra *sym.Term) string {
 		sb.WriteString("\n")
 	}
 	if extra != nil {
-		sb.WriteString("(assert " + sym.Ref(extra) + ")\n")
+		sb.WriteString("(assert " + s.ref(extra) + ")\n")
 	}
 	sb.WriteString("(check-sat)\n")
 	return sb.String()
